@@ -94,6 +94,265 @@ theorem C14_unsafe_refused (n : Bytes) (h : ¬ safe n) : ∃ e, validateIncludeF
   | error e => exact ⟨e, rfl⟩
   | ok u => cases u; exact absurd (C14_name n hv) h
 
+/-! ### the whole scanning stage: every file access is `joinDir includer validated-name` -/
+
+/-- the file names a project can reach: the root, and `joinDir N name` for a reachable includer `N`
+    and a parameter `name` that passes validation -/
+inductive Reach (root : Bytes) : Bytes → Prop
+  | root : Reach root root
+  | step (N name : Bytes) : Reach root N → validateIncludeFileName name = .ok () → Reach root (joinDir N name)
+
+/-- an access the model records: to a reachable name other than by being the root, i.e. resolved from a
+    reachable includer and a validated parameter -/
+def AccessOk (root : Bytes) (a : String × Bytes) : Prop :=
+  ∃ N name, Reach root N ∧ validateIncludeFileName name = .ok () ∧ a.2 = joinDir N name
+
+/-- invariant of the scanning loop -/
+def IncInv (root : Bytes) (c : Core) : Prop :=
+  Reach root c.current.name ∧ (∀ p ∈ c.suspended, Reach root p.1.name) ∧ ∀ a ∈ c.accesses, AccessOk root a
+
+/-- outcome of a step: the invariant again, or an error whose recorded accesses are all of that form -/
+def ResInv (root : Bytes) (r : Except PFault Core) : Prop :=
+  (∀ c', r = .ok c' → IncInv root c') ∧ (∀ e, r = .error (.err e) → ∀ a ∈ e.acc, AccessOk root a)
+
+theorem processCurrent_inc (root : Bytes) (c : Core) (hc : IncInv root c) : ResInv root c.processCurrent := by
+  constructor
+  · intro c' h
+    unfold Core.processCurrent at h
+    repeat' split at h
+    all_goals first | (cases h; done) | (cases h; exact hc)
+  · intro e h
+    unfold Core.processCurrent at h
+    repeat' split at h
+    all_goals first | (cases h; done) | (cases h; exact hc.2.2)
+
+theorem tracerFor_inc (root : Bytes) (c : Core) (h : IncInv root c) : IncInv root c.tracerFor.2 := by
+  unfold Core.tracerFor
+  repeat' split
+  all_goals exact h
+
+theorem onLexeme_inc (root : Bytes) (c : Core) (l : Lexeme) (hc : IncInv root c) : ResInv root (c.onLexeme l) := by
+  have hp := processCurrent_inc root c hc
+  constructor
+  · intro c' h
+    unfold Core.onLexeme at h
+    split at h
+    · split at h
+      · cases h
+      · rename_i c1 hp1
+        have h1 := hp.1 c1 hp1
+        repeat' split at h
+        all_goals first
+          | (cases h; done)
+          | (rename_i htf; cases h
+             have ht := tracerFor_inc root c1 h1
+             rw [htf] at ht
+             exact ht)
+    all_goals (repeat' split at h)
+    all_goals first
+      | (cases h; done)
+      | (cases h; exact hc)
+      | skip
+    all_goals (cases h; have h1 := hp.1 _ ‹c.processCurrent = Except.ok _›; exact h1)
+  · intro e h
+    unfold Core.onLexeme at h
+    split at h
+    · split at h
+      · rename_i f hp1
+        cases h
+        exact hp.2 e hp1
+      · rename_i c1 hp1
+        have h1 := hp.1 c1 hp1
+        repeat' split at h
+        all_goals first
+          | (cases h; done)
+          | (cases h; exact h1.2.2)
+    all_goals (repeat' split at h)
+    all_goals first
+      | (cases h; done)
+      | (cases h; exact hc.2.2)
+      | skip
+    all_goals first
+      | (cases h; exact hp.2 e ‹c.processCurrent = Except.error _›)
+      | (cases h; have h1 := hp.1 _ ‹c.processCurrent = Except.ok _›; exact h1.2.2)
+
+theorem onEOF_inc (root : Bytes) (c : Core) (hc : IncInv root c) : ResInv root c.onEOF := by
+  have hp := processCurrent_inc root c hc
+  constructor
+  · intro c' h
+    unfold Core.onEOF at h
+    split at h
+    · cases h
+    · rename_i c1 hp1
+      split at h
+      · cases h
+      · cases h; have h1 := hp.1 _ ‹c.processCurrent = Except.ok _›; exact h1
+  · intro e h
+    unfold Core.onEOF at h
+    split at h
+    · rename_i f hp1
+      cases h; exact hp.2 e hp1
+    · split at h
+      · cases h; have h1 := hp.1 _ ‹c.processCurrent = Except.ok _›; exact h1.2.2
+      · cases h
+
+/-- **C14 (accesses of one INCLUDE)**: `processInclude` consults the file system only after the parameter
+    has passed validation, and only with `joinDir includer parameter` -/
+theorem processInclude_inc (root : Bytes) (c : Core) (fsys : FileSys) (kw : Lexeme) (hc : IncInv root c) :
+    ResInv root (c.processInclude fsys kw) := by
+  have key : ∀ raw : Bytes, validateIncludeFileName (unquote raw) = .ok () →
+      (∀ a ∈ ("stat", joinDir c.current.name (unquote raw)) :: c.accesses, AccessOk root a) ∧
+      (∀ a ∈ ("read", joinDir c.current.name (unquote raw)) :: ("stat", joinDir c.current.name (unquote raw)) :: c.accesses, AccessOk root a) ∧
+      Reach root (joinDir c.current.name (unquote raw)) := by
+    intro raw hval
+    have hacc : ∀ op : String, AccessOk root (op, joinDir c.current.name (unquote raw)) :=
+      fun _ => ⟨c.current.name, unquote raw, hc.1, hval, rfl⟩
+    refine ⟨?_, ?_, Reach.step _ _ hc.1 hval⟩
+    · intro a ha
+      rcases List.mem_cons.mp ha with rfl | ha
+      · exact hacc _
+      · exact hc.2.2 a ha
+    · intro a ha
+      rcases List.mem_cons.mp ha with rfl | ha
+      · exact hacc _
+      · rcases List.mem_cons.mp ha with rfl | ha
+        · exact hacc _
+        · exact hc.2.2 a ha
+  constructor
+  · intro c' h
+    simp only [Core.processInclude] at h
+    repeat' split at h
+    all_goals first
+      | (cases h; done)
+      | (cases h
+         obtain ⟨_, h2, h3⟩ := key _ ‹validateIncludeFileName (unquote _) = Except.ok PUnit.unit›
+         refine ⟨h3, ?_, h2⟩
+         intro p hp
+         rcases List.mem_cons.mp hp with rfl | hp
+         · exact hc.1
+         · exact hc.2.1 p hp)
+  · intro e h
+    simp only [Core.processInclude] at h
+    repeat' split at h
+    all_goals first
+      | (cases h; done)
+      | (cases h; exact hc.2.2)
+      | (cases h; exact (key _ ‹validateIncludeFileName (unquote _) = Except.ok PUnit.unit›).1)
+      | (cases h; exact (key _ ‹validateIncludeFileName (unquote _) = Except.ok PUnit.unit›).2.1)
+      | (rename_i f _; cases f <;> simp only [scanFault] at h <;> cases h <;> exact hc.2.2)
+
+/-- **C14 (every access of the scanning stage)**: whatever the files, the include graph and the fuel,
+    every `os.Stat` / `os.ReadFile` the scanning loop makes — those before a successful end as well as
+    those before an error — is made with `joinDir N name`, where `N` is the root file or a file reached
+    the same way and `name` is an INCLUDE parameter that passed `validateIncludeFileName` (so, by
+    `C14_name`, not empty, not absolute, without backslash and without `.`/`..` segments; `C14_inside`
+    says what `joinDir` makes of such a name below a clean directory). -/
+theorem C14_all_accesses (fsys : FileSys) (n : Nat) (root : Bytes) : ∀ (c : Core), IncInv root c →
+    ResInv root (Core.run fsys n c) := by
+  induction n with
+  | zero => intro c _; exact ⟨fun c' h => by simp [Core.run] at h, fun e h => by simp [Core.run] at h⟩
+  | succ n ih =>
+    intro c hc
+    have hcur : ∀ (sc' : Sc St) (res : Bool),
+        IncInv root ({ ({ c with current := { c.current with sc := sc' } } : Core) with resumed := res }) := fun _ _ => hc
+    constructor
+    · intro c' h
+      simp only [Core.run] at h
+      split at h
+      · cases h
+      · rename_i l sc' _
+        split at h
+        · cases h
+        · split at h
+          · split at h
+            · cases h
+            · rename_i c1 hinc
+              exact (ih c1 ((processInclude_inc root _ fsys l (hcur sc' false)).1 c1 hinc)).1 c' h
+          · split at h
+            · cases h
+            · rename_i c1 hon
+              exact (ih c1 ((onLexeme_inc root _ l (hcur sc' false)).1 c1 hon)).1 c' h
+      · rename_i sc' _
+        split at h
+        · cases h
+        · rename_i c2 he
+          have h2 := (onEOF_inc root _ (hcur sc' c.resumed)).1 c2 he
+          split at h
+          · cases h; exact h2
+          · rename_i sfs at_ rest hsus
+            refine (ih { c2 with current := sfs, suspended := rest, resumed := true } ⟨?_, ?_, h2.2.2⟩).1 c' h
+            · exact h2.2.1 (sfs, at_) (by rw [hsus]; simp)
+            · intro p hpm
+              exact h2.2.1 p (by rw [hsus]; exact List.mem_cons_of_mem _ hpm)
+    · intro e h
+      simp only [Core.run] at h
+      split at h
+      · rename_i f _
+        cases f <;> simp only [scanFault] at h <;> cases h
+        exact hc.2.2
+      · rename_i l sc' _
+        split at h
+        · rename_i tf heq
+          split at heq
+          · split at heq
+            all_goals first | (cases heq; cases h; exact hc.2.2) | (cases heq; done)
+          · cases heq
+        · split at h
+          · split at h
+            · rename_i f hinc
+              cases h
+              exact (processInclude_inc root _ fsys l (hcur sc' false)).2 e hinc
+            · rename_i c1 hinc
+              exact (ih c1 ((processInclude_inc root _ fsys l (hcur sc' false)).1 c1 hinc)).2 e h
+          · split at h
+            · rename_i f hon
+              cases h
+              exact (onLexeme_inc root _ l (hcur sc' false)).2 e hon
+            · rename_i c1 hon
+              exact (ih c1 ((onLexeme_inc root _ l (hcur sc' false)).1 c1 hon)).2 e h
+      · rename_i sc' _
+        split at h
+        · rename_i f he
+          cases h
+          exact (onEOF_inc root _ (hcur sc' c.resumed)).2 e he
+        · rename_i c2 he
+          have h2 := (onEOF_inc root _ (hcur sc' c.resumed)).1 c2 he
+          split at h
+          · cases h
+          · rename_i sfs at_ rest hsus
+            refine (ih { c2 with current := sfs, suspended := rest, resumed := true } ⟨?_, ?_, h2.2.2⟩).2 e h
+            · exact h2.2.1 (sfs, at_) (by rw [hsus]; simp)
+            · intro p hpm
+              exact h2.2.1 p (by rw [hsus]; exact List.mem_cons_of_mem _ hpm)
+
+/-- the initial core of a project satisfies the invariant -/
+theorem incInv_init (root : Bytes) (env : Env) (banned : List Kind) :
+    IncInv root { current := { name := root, env := env, sc := Sc.init .stateRoot }, banned := banned } :=
+  ⟨Reach.root, (fun p hp => by cases hp), (fun a ha => by cases ha)⟩
+
+/-- **C14 (project)**: the same for the core as `kit.NewJapi` starts it on a root file -/
+theorem C14_project_accesses (fsys : FileSys) (n : Nat) (rootName : Bytes) (content : Array UInt8)
+    (lenAt : BodyKind → Nat → LenAnswer) (banned : List Kind) :
+    (∀ c', Core.run fsys n { current := { name := rootName, env := mkEnv content lenAt, sc := Sc.init .stateRoot }, banned := banned } = .ok c' →
+        ∀ a ∈ c'.accesses, AccessOk rootName a) ∧
+    (∀ e, Core.run fsys n { current := { name := rootName, env := mkEnv content lenAt, sc := Sc.init .stateRoot }, banned := banned } = .error (.err e) →
+        ∀ a ∈ e.acc, AccessOk rootName a) := by
+  have := C14_all_accesses fsys n rootName _ (incInv_init rootName (mkEnv content lenAt) banned)
+  exact ⟨fun c' h => (this.1 c' h).2.2, this.2⟩
+
+/-- **C14 (cycle)**: an INCLUDE reached while the including file's own name is already on the stack of
+    suspended files is refused with the recursion error, at that INCLUDE, whatever the file is — the
+    include graph can therefore never be entered twice along one chain (a cycle of any length is an error) -/
+theorem C14_cycle_refused (c : Core) (fsys : FileSys) (kw : Lexeme) (c' : Core)
+    (hcyc : c.suspended.any (fun s => s.1.name == c.current.name) = true) :
+    c.processInclude fsys kw ≠ .ok c' := by
+  intro h
+  simp only [Core.processInclude] at h
+  repeat' split at h
+  all_goals first
+    | (cases h; done)
+    | (rename_i hno; exact hno hcyc)
+
 /-- non-vacuity and the repaired witnesses -/
 def verdict (n : Bytes) : Option NameErr :=
   match validateIncludeFileName n with
